@@ -49,12 +49,13 @@ ObsBal(o) == [a \in TAddrs |-> [t \in TAssets |-> o[a][t]]]
 ObsRates(ob) == [t \in TAssets |-> IF t \in DOMAIN ob.rates THEN ob.rates[t] ELSE BZero]
 
 \* merge the history delta of a block into hist: hash -> [h, exec, rows, txs]
-RECURSIVE MergeHist(_, _, _)
-MergeHist(hm, d, i) ==
+\* (only transaction-chain entries are kept across blocks; reward / payout rows are checked in the step that shows them)
+RECURSIVE MergeHist(_, _, _, _)
+MergeHist(hm, d, i, keep) ==
   IF i > Len(d) THEN hm
   ELSE LET b == d[i]
            r == [h |-> b.height, exec |-> b.exec, rows |-> b.rows, txs |-> b.txs]
-       IN  MergeHist((b.hash :> r) @@ hm, d, i + 1)
+       IN  MergeHist(IF b.hash \in keep THEN (b.hash :> r) @@ hm ELSE hm, d, i + 1, keep)
 
 InEntries(in) == in.entries
 HashesOf(es) == {es[i].hash : i \in 1..Len(es)}
@@ -128,7 +129,7 @@ StepBlock ==
          in == e.in
          ob == e.obs
          txh2 == txh \cup HashesOf(in.entries)
-         hist2 == MergeHist(hist, ob.hist, 1)
+         hist2 == MergeHist(hist, ob.hist, 1, txh2)
          known == txh2 \cap DOMAIN hist2
          O == [self |-> FALSE, exec |-> [x \in known |-> hist2[x].exec], rows |-> [x \in known |-> hist2[x].rows],
                rated |-> ob.rated, rates |-> ObsRates(ob), bal |-> ObsBal(ob.bal)]
